@@ -337,6 +337,98 @@ def c16_7(ctx):
     return c08_1(ctx)
 
 
+def _group_language(pattern, index):
+    """(min width, max width, characters that may occur) of capturing group `index` of a regular expression"""
+    import re._parser as sre
+    tree = sre.parse(pattern)
+    found = []
+
+    def chars_of(items):
+        out = set()
+        for op, av in items:
+            opn = str(op)
+            if opn == "LITERAL":
+                out.add(chr(av))
+            elif opn == "ANY":
+                out |= {chr(c) for c in range(32, 127)}
+            elif opn == "IN":
+                neg = any(str(o2) == "NEGATE" for o2, _ in av)
+                cs = set()
+                for o2, a2 in av:
+                    if str(o2) == "LITERAL":
+                        cs.add(chr(a2))
+                    elif str(o2) == "RANGE":
+                        cs |= {chr(c) for c in range(a2[0], a2[1] + 1)}
+                    elif str(o2) == "CATEGORY":
+                        nm = str(a2)
+                        if nm.endswith("CATEGORY_DIGIT"):
+                            cs |= set("0123456789")
+                        elif nm.endswith("CATEGORY_WORD"):
+                            cs |= set("0123456789_abcdefghijklmnopqrstuvwxyzABCDEFGHIJKLMNOPQRSTUVWXYZ")
+                        else:
+                            cs |= {chr(c) for c in range(32, 127)}
+                out |= ({chr(c) for c in range(32, 127)} - cs) if neg else cs
+            elif opn in ("MAX_REPEAT", "MIN_REPEAT", "POSSESSIVE_REPEAT"):
+                out |= chars_of(av[2])
+            elif opn == "SUBPATTERN":
+                out |= chars_of(av[3])
+            elif opn == "BRANCH":
+                for b in av[1]:
+                    out |= chars_of(b)
+        return out
+
+    def walk(items):
+        for op, av in items:
+            opn = str(op)
+            if opn == "SUBPATTERN":
+                if av[0] == index:
+                    lo, hi = av[3].getwidth()
+                    found.append((lo, hi, chars_of(av[3])))
+                walk(av[3])
+            elif opn in ("MAX_REPEAT", "MIN_REPEAT", "POSSESSIVE_REPEAT"):
+                walk(av[2])
+            elif opn == "BRANCH":
+                for b in av[1]:
+                    walk(b)
+    walk(tree)
+    return found[0] if found else None
+
+
+def c16_8(ctx):
+    """the key-record reader accepts every key origin the writer emits: the derivation-path capture of the key-record regular
+    expression is nullable (an origin `[xfp]` with path `m` has nothing after the fingerprint) and admits `/`, digits and both
+    hardened notations (regex syntax tree, no matching is run)"""
+    spec = "descriptor:parse_partial_key_record"
+    mod, fn = rl.get(ctx, spec)
+    f = Folder(ctx.repo, mod.name)
+    pats = [f.fold(c.args[0]) for c in ast.walk(fn) if isinstance(c, ast.Call) and call_name(c) in ("match", "fullmatch", "search", "compile") and c.args]
+    pats = [p for p in pats if isinstance(p, str)]
+    if not pats:
+        raise AnalysisError("parse_partial_key_record: regular expression not found")
+    g = _group_language(pats[0], 2)
+    if g is None:
+        raise AnalysisError("parse_partial_key_record: second capturing group (derivation path) not found")
+    lo, hi, chars = g
+    need = set("/0123456789h'")
+    out = []
+    if lo > 0:
+        out.append(ctx.bad(spec, "the derivation-path group of %r needs at least %d character(s): a key origin whose path is `m` (written `[xfp]xpub...`) is emitted by the "
+                                 "descriptor but no longer parses, so str() -> parse() fails" % (pats[0], lo), fn, mod, key="origin-path-nullable"))
+    else:
+        out.append(ctx.ok(spec, "the derivation-path group may be empty (origin path `m`)", fn, mod, key="origin-path-nullable"))
+    if need - chars:
+        out.append(ctx.bad(spec, "the derivation-path group of %r cannot contain %s" % (pats[0], sorted(need - chars)), fn, mod, key="origin-path-alphabet"))
+    else:
+        out.append(ctx.ok(spec, "the derivation-path group admits `/`, digits, `h` and `'`", fn, mod, key="origin-path-alphabet"))
+    return out
+
+
+def c16_9(ctx):
+    """the SLIP-132 version tables decide the network of every key record (and with it xpub text and address prefix)"""
+    from rules.C08 import c08_5
+    return c08_5(ctx)
+
+
 OBLIGATIONS = [
     ("C16.1", "TABLE", c16_1),
     ("C16.2", "GUARD", c16_2),
@@ -345,5 +437,7 @@ OBLIGATIONS = [
     ("C16.5", "AFFINE", c16_5),
     ("C16.6", "GUARD", c16_6),
     ("C16.7", "RANGE accept-set", c16_7),
+    ("C16.8", "REGEX AST", c16_8),
+    ("C16.9", "TABLE", c16_9),
 ]
 FLOORS = {"C16.1": 5, "C16.2": 2, "C16.3": 3, "C16.4": 4, "C16.5": 3}
